@@ -1039,3 +1039,25 @@ def translate(repo):
     if rc != 0:
         raise vlib.MachineryError('Extract/Spec.v does not build:\n' + out[-3000:])
     return info
+
+
+# second batch of the translator tie: the WHOLE loop body of extract_epochs (removal drain, delivery, intake, stacking /
+# target, callback condition) is translated too (extract_epochs_drain / _deliver / _replay / _intake / _send) and proved equal
+# to Model.feed_step in coq/Extract/ProofsTieSend.v (C05_source_send, C05_source_refines_spec, ...)
+TRUSTED = TRUSTED + [
+    'translate/pycapture2coq.py, whole send of extract_epochs: `while deque:` = fuelled recursion on its contents, `for .. in '
+    'list(D.items())` / `for p in prior_samples` = recursion over the snapshot with the loop variable aliasing D[key], try / '
+    'except StopIteration = the continuation of a finished coroutine, co.send(..) = the generated capture_epoch_step with '
+    'epochs.append receiving the model item tagged with `key` (ce_item), popleft / remove / dict pop / `in` / D[k] = v = '
+    'head+tail / remove_first / del_key / memz, has_key / dict_put with their IndexError / ValueError / KeyError; deques = '
+    'their contents at the send, source_complete.is_set() and `empty_queue_cb is not None` = booleans; pinned as text: the '
+    'pre-loop initialisation, `key = info[\'t0\'], info.get(\'key\', None)` (= the integer the harness gives the pair), the '
+    'info[..] = .. writes and float conversions of a request (= r_lo, r_n computed by the harness with the same expressions), '
+    'the two log.debug blocks, the Duplicate ValueError, and the stacking block `if isinstance(epochs[0], PipelineData) .. '
+    'target(merged); epochs[:] = []` (= Model.stack_ok kind, found by experiment). Self-test on every run: the translation '
+    'interpreted independently against the real extract_epochs over random request / removal / completion schedules, send by '
+    'send (exceptions, what target received, callback calls, tlb, prior_samples, order and frame locals of the pending '
+    'coroutines; ok, Duplicate and stacking errors must all be reached), and 10 such sends as Examples about the emitted text)',
+    'coq/Extract/ProofsTieSend.v: absx (the coroutine dict through abs) as the reading of generated states as model states']
+ASSUMPTIONS = ASSUMPTIONS + ['tie theorems for the whole send: wf_xe (dict keys distinct - refuted without -, pending coroutines '
+                             'auto_send = False, `epochs` empty between sends) and buffer_samples >= 0']
